@@ -722,6 +722,10 @@ def c18_instance(rng):
         head = recase(rng, w)
         after = rng.choice(AFTER)
         rest = rng.choice(RESTS) if after.strip() == '' else rng.choice(['', ' x', ' from t'])
+        if w.lower() == 'create' and after.strip() == '' and after != '' and rng.random() < 0.5:
+            # only CREATE OR REPLACE is reported as a whole: any other word after CREATE leaves the type CREATE
+            rest = rng.choice(['or alter view v as select 1', 'OR ALTER procedure p as select 1', 'or refresh table t',
+                               'unique index i on t(a)', 'temporary table t(a int)', 'or\talter function f()', 'or replaced'])
         return {'kind': 'keyword', 'text': pre + head + after + rest, 'expected': w.upper(), 'after': after, 'pre': pre}
     if r < 0.55:
         sp1, sp2 = rng.choice([' ', '  ', '\n', '\t', ' \n ']), rng.choice([' ', '  ', '\n', '\t', ' \n '])
